@@ -5,6 +5,12 @@ The Lean model `Missing.iterItems` (code-shaped: `_MissingPieces`, skip-bytes, b
 remove-while-iterating) and the Lean specification `Missing.specData/badFiles` are run by the
 driver on (L, sizes, disk states); the real `TorrentFileStream.iter_pieces()` runs on a tmpfs
 tree in the same state.  Compared: per item (data bytes | None, list of (file, error kind)).
+
+Round 3: a second pass.  For part of the cases the disk is changed after the first complete iteration (`disk2`:
+files truncated / extended in place, missing files created, mis-sized files removed — changes that leave no
+handle of the stream on a replaced inode) and `iter_pieces()` runs again ON THE SAME STREAM OBJECT; its items are
+judged against specification and model on the NEW disk state (a stream must not remember sizes, missing-piece
+records or by-catch files from the first pass; the handle-level theory is property C19's `Torf.HandlesDisk`).
 """
 import itertools
 import os
@@ -16,11 +22,14 @@ from harness.impl import content
 RULE = ('case = (piece length, file sizes, per-file disk state ok|missing|actual size); exhaustive small '
         'scopes (every assignment of ok/missing/-1/+1 with a bounded number of bad files) + directed '
         'random up to 30 files; non-trivial = at least one bad file and at least one piece that '
-        'contains bytes of a bad file and of another file; distinct = distinct case tuples')
+        'contains bytes of a bad file and of another file; distinct = distinct case tuples.  Optional disk2 = '
+        'per-file state after the first pass (reached by truncate/extend in place, creation of a missing file, removal '
+        'of a mis-sized one): a second iter_pieces() pass on the same stream object is judged on disk2')
 
 
 def _bad_empty_at_boundary(case):
-    L, sizes, disk = case['L'], case['sizes'], case['disk']
+    L, sizes = case['L'], case['sizes']
+    disk = case['disk2'] if case.get('judged_state') == 'disk2' else case['disk']
     pos = 0
     out = []
     for i, (s, st) in enumerate(zip(sizes, disk)):
@@ -67,6 +76,62 @@ def _make(wd, c):
     return files, contents, top
 
 
+def _excs(torf, excs, index_of):
+    es = []
+    for e in excs:
+        if isinstance(e, torf.ReadError):
+            es.append([index_of.get(str(e.path), -1), 'read'])
+        elif isinstance(e, torf.VerifyFileSizeError):
+            es.append([index_of.get(str(e.filepath), -1), 'size'])
+        else:
+            es.append([-1, type(e).__name__])
+    return es
+
+
+def _state_bytes(c, i, size, st):
+    good = content.file_bytes(c['cseed'], i, size)
+    n = int(st) if st != 'ok' else size
+    return (good + content.file_bytes(c['cseed'] + 1, i, max(0, n - len(good))))[:n]
+
+
+def _change_disk(c, files, top):
+    """bring every file from its state in c['disk'] to its state in c['disk2'] without replacing an inode the stream
+    may hold a handle of: size changes in place, creation of missing files, removal of mis-sized (never opened) files"""
+    for i, (f, a, b) in enumerate(zip(files, c['disk'], c['disk2'])):
+        if a == b:
+            continue
+        p = os.path.join(top, *f['path'])
+        if b == 'missing':
+            assert a not in ('ok', 'unreadable')
+            os.unlink(p)
+        elif a == 'missing':
+            with open(p, 'xb') as fh:
+                fh.write(_state_bytes(c, i, f['size'], b))
+        else:
+            want = _state_bytes(c, i, f['size'], b)
+            have = os.path.getsize(p)
+            if len(want) < have:
+                os.truncate(p, len(want))
+            elif len(want) > have:
+                with open(p, 'ab') as fh:
+                    fh.write(want[have:])
+
+
+def second_states(rng, sizes, disk):
+    """a disk state reachable from `disk` by the changes `_change_disk` makes; None when nothing would change"""
+    out = []
+    for s_, a in zip(sizes, disk):
+        if a == 'unreadable':
+            return None
+        if rng.random() < 0.5:
+            out.append(a)
+        elif a == 'ok':
+            out.append(rng.choice([s_ + 1] + ([s_ - 1] if s_ > 0 else [])))
+        else:
+            out.append(rng.choice([x for x in ['ok', 'missing', s_ + 1] + ([s_ - 1] if s_ > 0 else []) if x != a]))
+    return out if out != list(disk) else None
+
+
 def _run_chunk(cases):
     torf = common.import_torf()
     from torf import _stream
@@ -100,7 +165,15 @@ def _run_chunk(cases):
                         else:
                             es.append([-1, type(e).__name__])
                     items.append((piece, es))
-            obs['items'] = items
+                obs['items'] = items
+                if c.get('disk2'):
+                    # the disk changes, the SAME stream object iterates again
+                    _change_disk(c, files, top)
+                    try:
+                        obs['items2'] = [(piece, _excs(torf, excs, index_of)) for (piece, fp, excs) in tfs.iter_pieces()]
+                    except Exception as e:  # noqa
+                        obs['exc2_type'] = type(e).__name__
+                        obs['exc2'] = str(e)[:200]
         except BaseException as e:  # noqa
             obs['exc_type'] = type(e).__name__
             obs['exc'] = str(e)[:200]
@@ -164,68 +237,92 @@ def _bytes_of(runs, contents):
     return None if runs is None else b''.join(contents[f][o:o + n] for f, o, n in runs)
 
 
+def _judge(ctx, case, r, obs, contents, second=False):
+    """one iter_pieces() pass (items or escaped exception in `obs`) against specification and model reply `r`"""
+    tag = ' [second pass on the same stream object, after the disk changed]' if second else ''
+    if not r['hyp']:
+        ctx.dist['outside-hyp(bad empty entry)'] += 1
+    if r['hyp'] and not r['strict']:
+        ctx.machinery_error('model does not meet the strict spec under hyp', case)
+        return
+    if 'exc_type' in obs:
+        # the implementation let an exception escape iter_pieces()
+        ctx.violation(f'iter_pieces() raised {obs["exc_type"]}: {obs.get("exc")}' + tag, case,
+                      'one item per piece', obs, MATCHERS)
+        if r['model'] is not None:
+            ctx.corr_break('c10.items', case, 'items', obs['exc_type'])
+        return
+    got = obs['items']
+    # 1. implementation against the specification
+    want = [_bytes_of(x, contents) for x in r['specData']]
+    lenient_ok = len(got) == len(want)
+    if lenient_ok:
+        for i, ((g, _), w) in enumerate(zip(got, want)):
+            if g != w and not (g is None and r['mayBlank'][i] and not r['hyp']):
+                lenient_ok = False
+    rep = sorted([tuple(e) for (_, es) in got for e in es])
+    bad = sorted([tuple(e) for e in r['bad']])
+    data_with_exc = any(g is not None and es for (g, es) in got)
+    if not lenient_ok or rep != bad or data_with_exc:
+        observed = {'data': [None if g is None else g.hex() for (g, _) in got], 'reported': rep}
+        if lenient_ok and not data_with_exc and sorted(set(rep)) == bad:
+            observed['deviation'] = 'duplicate-report-only'
+            observed['dups'] = sorted({e[0] for e in rep if rep.count(e) > 1})
+        fid = ctx.violation('iter_pieces() items deviate from the specification '
+                            '(one item per piece, data iff unspoiled, each bad file reported once)' + tag,
+                            case,
+                            {'data': [None if w is None else w.hex() for w in want], 'reported': bad},
+                            observed, MATCHERS)
+        if fid is None:
+            return
+    # 2. implementation against the code-shaped model (correspondence)
+    if r['model'] is None:
+        ctx.corr_break('c10.items', case, 'internal error', 'items')
+        return
+    m = [(_bytes_of(it['data'], contents), it['excs']) for it in r['model']]
+    g2 = [(g, [list(e) for e in es]) for (g, es) in got]
+    if m != g2:
+        ctx.corr_break('c10.items', case,
+                       [(None if d is None else d.hex(), e) for d, e in m][:12],
+                       [(None if d is None else d.hex(), e) for d, e in g2][:12])
+
+
 def evaluate(ctx, drv, cases):
     rng = ctx.rng
     for c in cases:
         c.setdefault('paths', layouts.paths_for(len(c['sizes']), rng, nested=c.get('kind', '').startswith('random')))
         c.setdefault('cseed', rng.randrange(1 << 30))
-    replies = drv.run([{'op': 'c10.items', 'L': c['L'], 'sizes': c['sizes'],
-                        'disk': ['missing' if d == 'unreadable' else d for d in c['disk']]} for c in cases])
+    reqs, second = [], {}
+    for n, c in enumerate(cases):
+        reqs.append({'op': 'c10.items', 'L': c['L'], 'sizes': c['sizes'],
+                     'disk': ['missing' if d == 'unreadable' else d for d in c['disk']]})
+    for n, c in enumerate(cases):
+        if c.get('disk2'):
+            second[n] = len(reqs)
+            reqs.append({'op': 'c10.items', 'L': c['L'], 'sizes': c['sizes'], 'disk': c['disk2']})
+    replies = drv.run(reqs)
     results = common.pmap(_run_chunk, common.split(cases, common.NPROC * 4))
     k = 0
     for chunk in results:
         for (c, obs, contents) in chunk:
             r = replies[k]
-            k += 1
             case = {x: c[x] for x in ('L', 'sizes', 'disk', 'paths', 'cseed')}
             key = (c['L'], tuple(c['sizes']), tuple(map(str, c['disk'])))
-            ctx.case(key=key, nontrivial=_nontrivial(c), kind=c.get('kind'))
-            if not r['hyp']:
-                ctx.dist['outside-hyp(bad empty entry)'] += 1
-            if r['hyp'] and not r['strict']:
-                ctx.machinery_error('model does not meet the strict spec under hyp', case)
-                continue
+            if c.get('disk2'):
+                case['disk2'] = c['disk2']
+                key = key + (tuple(map(str, c['disk2'])),)
+                ctx.dist['second-pass-after-disk-change'] += 1
+            ctx.case(key=key, nontrivial=_nontrivial(c) or bool(c.get('disk2') and _nontrivial({**c, 'disk': c['disk2']})),
+                     kind=c.get('kind'))
             ctx.sample({'case': case, 'model': r['model']}, limit=4)
-            if 'exc_type' in obs:
-                # the implementation let an exception escape iter_pieces()
-                ctx.violation(f'iter_pieces() raised {obs["exc_type"]}: {obs.get("exc")}', case,
-                              'one item per piece', obs, MATCHERS)
-                if r['model'] is not None:
-                    ctx.corr_break('c10.items', case, 'items', obs['exc_type'])
-                continue
-            got = obs['items']
-            # 1. implementation against the specification
-            want = [_bytes_of(x, contents) for x in r['specData']]
-            lenient_ok = len(got) == len(want)
-            if lenient_ok:
-                for i, ((g, _), w) in enumerate(zip(got, want)):
-                    if g != w and not (g is None and r['mayBlank'][i] and not r['hyp']):
-                        lenient_ok = False
-            rep = sorted([tuple(e) for (_, es) in got for e in es])
-            bad = sorted([tuple(e) for e in r['bad']])
-            data_with_exc = any(g is not None and es for (g, es) in got)
-            if not lenient_ok or rep != bad or data_with_exc:
-                observed = {'data': [None if g is None else g.hex() for (g, _) in got], 'reported': rep}
-                if lenient_ok and not data_with_exc and sorted(set(rep)) == bad:
-                    observed['deviation'] = 'duplicate-report-only'
-                    observed['dups'] = sorted({e[0] for e in rep if rep.count(e) > 1})
-                fid = ctx.violation('iter_pieces() items deviate from the specification '
-                                    '(one item per piece, data iff unspoiled, each bad file reported once)',
-                                    case,
-                                    {'data': [None if w is None else w.hex() for w in want], 'reported': bad},
-                                    observed, MATCHERS)
-                if fid is None:
-                    continue
-            # 2. implementation against the code-shaped model (correspondence)
-            if r['model'] is None:
-                ctx.corr_break('c10.items', case, 'internal error', 'items')
-                continue
-            m = [(_bytes_of(it['data'], contents), it['excs']) for it in r['model']]
-            g2 = [(g, [list(e) for e in es]) for (g, es) in got]
-            if m != g2:
-                ctx.corr_break('c10.items', case,
-                               [(None if d is None else d.hex(), e) for d, e in m][:12],
-                               [(None if d is None else d.hex(), e) for d, e in g2][:12])
+            nv, nb = len(ctx.violations), len(ctx.corr_breaks)
+            _judge(ctx, case, r, obs, contents)
+            if c.get('disk2') and 'exc_type' not in obs and (len(ctx.violations), len(ctx.corr_breaks)) == (nv, nb):
+                obs2 = ({'exc_type': obs['exc2_type'], 'exc': obs.get('exc2')} if 'exc2_type' in obs
+                        else {'items': obs.get('items2', [])})
+                # D10a witnesses of the first state must not excuse the second pass: judge it as a case of its own
+                _judge(ctx, {**case, 'judged_state': 'disk2'}, replies[second[k]], obs2, contents, second=True)
+            k += 1
 
 
 def corpus_cases():
@@ -258,6 +355,13 @@ def gen_cases(ctx, scale=1.0):
     cases += bigger
     for _ in range(int(ctx.n(4000, 120000) * scale)):
         cases.append(random_case(rng))
+    # second pass on the same stream after the disk changed: a third of the random cases, every 5th exhaustive one
+    for n, c in enumerate(cases):
+        if c.get('kind') != 'corpus' and 'disk2' not in c and (c['kind'].startswith('random') and rng.random() < 0.34
+                                                               or c['kind'] == 'exhaustive' and n % 5 == 0):
+            d2 = second_states(rng, c['sizes'], c['disk'])
+            if d2:
+                c['disk2'] = d2
     # a present file of the right size whose open() fails (the only bad file, so it is handled by the main
     # loop like a missing one and reported with a read error)
     for _ in range(int(ctx.n(400, 8000) * scale)):
@@ -289,6 +393,7 @@ def search(ctx, drv):
 
 def replay(ctx, drv, rp):
     c = dict(rp['case'])
+    c.pop('judged_state', None)
     evaluate(ctx, drv, [c])
     return {'fails': bool(ctx.violations or ctx.corr_breaks), 'violations': ctx.violations,
             'corr_breaks': ctx.corr_breaks, 'known': list(ctx.known)}
